@@ -4,6 +4,10 @@ import json, subprocess
 props=[json.loads(l) for l in open('/verif/properties.jsonl')]
 TECH="contract-based deductive verification: contracts on the real functions (comment files behind build tag verif), weakest-precondition style VCs generated from go/ssa of /repo's current tree, discharged by z3 4.8.12 / z3 5.1.0 / cvc5 1.0; counterexamples replayed on the real code"
 CLAIMS={
+ "C01":("Proof, for every pre-state and point (unbounded history length), of the alert state machine on the real code: determineLevel/findFirstMatchLevel return exactly specLevel (highest level whose condition holds, upward search from the current level, reset gate, downward search; loop invariant over the level walk) and the documented worked example 61 73 64 85 62 56 47 is a lemma over the same shape; addEvent/updateExpired/triggered/duration/currentLevel keep the history ring invariant and compute changed/expired/firstTriggered/lastTriggered as the property states; alertState.Point: handleEvent is called if and only if the emission rule of the property holds (flapping, state-changes-only with interval, recovery, no-recoveries), with the level, point time and lastTriggered-firstTriggered as arguments of the event. Stream form.",
+        "Assumed: predicate evaluation is a deterministic function of (expression, pool, point) (trusted pure EvalPredicate); renderID/event/handleEvent/augment* and message getters leave the state machine's fields alone (trusted, modifies nothing); AlertNode slices have length 4 (requires). Not covered: BufferedBatch (batch form, all()), percentChange numerics (floats uninterpreted), templates, handler delivery, the whole-history reading of 'time since the ID last left OK'."),
+ "C16":("Proof on the real code: timeTicker.Next is now+every, or aligned the least multiple of every after now (the live ticker's instant); QueryNode.Queries: the i-th historical query covers [tick_i-offset-period, tick_i-offset) with tick_{i+1}=Next(tick_i) (loop invariant over the growing slice, unbounded); Query.SetStartTime/SetStopTime/StartTime/StopTime; NewQuery: the final WHERE condition is the time range on the query's own two literals, or user AND time-range with the user's expression in an AND-safe (parenthesised or tighter-binding) position.",
+        "Assumed: time.Time as integer ns (Add/Sub/Truncate/Round/After/IsZero prelude), Query.Clone (trusted: fresh literals), ticker interface Next pure, influxql.ParseQuery yields non-nil statements, influxql prints binary expressions without parentheses. Not covered: doQuery's live arm, cron ticker, group-by-time offsets, checkDBRPs."),
  "C09":("Proof, for all inputs and unboundedly many events, of contracts on the real topic code: sortedStates.Less is the (level desc, id asc) strict weak order (3 lemmas); Topic.updateEvent keeps the representation invariant (sorted is ordered, duplicate-free, consistent with the events map, same size), returns the previous state of the same id, and leaves all other ids untouched; MaxLevel is the maximum of the listed states; EventStates(min) is exactly the events at or above min; EventState; Topics.UpdateEvent creates a missing topic. Slice of the property: per-call sequential facts only.",
         "Not covered: concurrent publishers (locks are no-ops), handler fan-out/FIFO, match expressions, publish/aggregate handlers. 'sorted covers all of events' rests on invariant + equal sizes (pigeonhole step not machine-checked). Trusted: sort.Sort contract specialised to sortedStates, expvar/vars calls effect-free, SMT solvers, go/ssa, govc."),
  "C12":("Proof, for all inputs, of the full functional contract of CircularQueue (Enqueue incl. the growing path, Dequeue, Peek): representation invariant and abstract-view postconditions (nothing lost, duplicated or reordered). Slice of the property: the buffering data structure under union/join.",
